@@ -43,7 +43,12 @@ def _ret_name(e):
 def consumed_on_success(eng, ok_pred):
     out = {}
     for e, st in eng.returns:
-        if ok_pred(e):
+        ok = ok_pred(e)
+        if not ok and e is not None and strip(e).get('k') == 'DeclRefExpr' and not strip(e).get('enumc'):
+            # `return result;`: the value the local holds on this path
+            v = eng.ev(e, st)
+            ok = v is not None and v.is_const() and v.cval() == 0
+        if ok:
             out[tuple(sorted(st.ctx.items()))] = st.consumed
     return out
 
